@@ -814,12 +814,13 @@ Proof.
         rewrite E in El'. change (len []) with 0 in El'. lia. }
     assert (take size (buf s) = buf s) as Hall.
     { apply take_all. rewrite len_take in El'. lia. }
-    rewrite Hall.
+    rewrite Hall. rewrite Hall in El'.
     set (n_size := Z.min (Z.min (todo s) (size - len (buf s))) block).
     unfold pending.
     destruct (n_size =? 0) eqn:En.
-    { intros [= E _ _]. rewrite E. rewrite E in En. change (len []) with 0 in *.
-      rewrite take_nonpos by (subst n_size; lia). reflexivity. }
+    { intros [= E _ _]. rewrite E. subst n_size. rewrite E in En.
+      change (len []) with 0 in En.
+      rewrite take_nonpos by lia. reflexivity. }
     destruct (s_read n_size (src s)) as [data f] eqn:Er.
     destruct (s_read_blocking _ _ _ _ Er Hsh) as (Hdata & Hsh').
     pose proof (s_read_spec _ _ _ _ Er) as (_ & Hlen & _).
@@ -872,9 +873,9 @@ Proof.
     intros [= E _ _]. subst data.
     destruct (s_read_blocking _ _ _ _ Er Hsh) as (Hdata & _).
     apply pending_nil_intro; [exact Eb|].
-    rewrite Eb in *. change (len []) with 0 in *.
+    subst sz. rewrite Eb in Hdata. change (len []) with 0 in Hdata.
     destruct (Z.eq_dec (todo s) 0) as [E0|E0]; [left; exact E0|right].
-    symmetry in Hdata. apply take_empty_inv in Hdata; [exact Hdata|subst sz; lia].
+    symmetry in Hdata. apply take_empty_inv in Hdata; [exact Hdata|lia].
 Qed.
 
 Theorem reader_complete body n block fuel cs rs s c s' q :
@@ -886,7 +887,7 @@ Proof.
   intros Hn Hb Hc Hrun Hstep.
   pose proof (reader_prefix _ _ _ _ _ _ _ _ _ Hn Hb Hrun) as Hp.
   apply run_ok in Hrun; [|exact Hb|exact Hn].
-  pose proof (call_ok_todo _ _ _ _ Hn Hrun) as Ht.
+  pose proof (call_ok_todo (init body n []) _ _ _ Hn Hrun) as Ht.
   destruct Hrun as (_ & _ & _ & _ & _ & (pre & Hsh) & _).
   cbn [init src s_shorts] in Hsh. symmetry in Hsh. apply app_eq_nil in Hsh as [_ Hsh].
   assert (pending s = []) as E.
@@ -894,6 +895,34 @@ Proof.
     - eapply read_empty; eassumption.
     - eapply readline_empty; eassumption. }
   rewrite Hp, E, app_nil_r. reflexivity.
+Qed.
+
+(* (3) and (4) after any history *)
+Theorem reader_lines body n block shorts fuel cs rs s ok k r s' q :
+  0 <= n -> 1 <= block ->
+  run fuel block cs (init body n shorts) = (rs, s, ok) ->
+  readline fuel block k s = Ok r s' q ->
+  (forall i, crlf_at r i -> (i + 2)%nat = List.length r) /\
+  (ends_crlf r \/ (0 <= k /\ len r = k) \/ exhausted s' \/
+   exists q0 j, q = q0 ++ [(j, 0)]).
+Proof.
+  intros Hn Hb Hrun H. apply run_ok in Hrun; [|exact Hb|exact Hn].
+  pose proof (call_ok_todo (init body n shorts) _ _ _ Hn Hrun) as Ht.
+  exact (readline_line _ _ _ _ _ _ _ Hb Ht H).
+Qed.
+
+Theorem reader_reads_bounded body n block shorts fuel cs rs s ok c r s' q :
+  0 <= n -> 1 <= block ->
+  run fuel block cs (init body n shorts) = (rs, s, ok) ->
+  step fuel block c s = Ok r s' q ->
+  Z.of_nat (List.length q) <= got q + 1 /\ got q <= n - got (logs rs).
+Proof.
+  intros Hn Hb Hrun H. split; [exact (reads_bounded _ _ _ _ _ _ _ H)|].
+  apply run_ok in Hrun; [|exact Hb|exact Hn].
+  pose proof (call_ok_todo (init body n shorts) _ _ _ Hn Hrun) as Ht.
+  destruct Hrun as (_ & _ & _ & Ht' & _). cbn [init todo] in Ht'.
+  apply step_ok in H; [|exact Hb|exact Ht].
+  destruct H as (_ & _ & Hw & _). apply within_got in Hw; [|exact Ht]. lia.
 Qed.
 
 (* ----------------------------------------------------------- non-vacuity *)
@@ -911,5 +940,6 @@ Example mixed_example :
   let '(rs, fin, ok) :=
     run 20 4 [CReadline 3; CRead 1; CReadline (-1); CRead (-1); CRead 2]
         (init [97; 13; 10; 98; 99; 13; 10; 100] 7 [2; 0; 1]) in
-  map fst rs = [[97; 13]; [10]; []; [98; 99; 13; 10]; []] /\ ok = true.
+  map fst rs = [[97; 13]; [10]; [98; 99; 13; 10]; []; []] /\
+  logs rs = [(3, 2); (1, 0); (1, 1); (4, 4); (0, 0); (0, 0)] /\ ok = true.
 Proof. vm_compute. repeat split. Qed.
